@@ -12,6 +12,10 @@
 #include "gen_text.h"
 #include "gen_scale.h"
 #include "ambient.h"
+#include <optional>
+#include <map>
+#include <unordered_map>
+#include <memory>
 
 using vrt::Rng;
 using vrt::sfmt;
@@ -53,6 +57,8 @@ struct Input {
 
 static const char LONG_OLD[] = "an old value that is long enough to live on the heap";
 static const Input *g_in = nullptr;
+static std::string g_in_text;     // g_in->describe(), made once per input (every route writes it to the current-case recorder)
+static void set_input(const Input &in) { g_in = &in; g_in_text = in.describe(); }
 static const char *g_route = "";
 static const char *g_mode = "";
 static std::string g_note;        // how a big input was built (scale phases); empty elsewhere
@@ -68,14 +74,42 @@ static void fail(const char *kind, const std::string &detail)
 // case index and the stride is 1 (whole table) on the smaller and on some of the big inputs.  Every route met on an input of
 // 4 Ki units or more gets a counter `scale.route[name|mode]` with a requirement of one execution, so a run in which some
 // route never saw a big input is inconclusive.  Outside the scale phases every route is always executed.
+typedef std::vector<std::pair<std::string, std::string>> RouteKeys;      // (route name, mode name); an empty mode name stands for every mode
+// a list of routes to execute (same_storage / soak phases), with the number of executions per entry.  Route names are string
+// literals, so which entries a name matches is remembered per literal address (filled on first sight by comparing the text).
+struct Selection {
+    RouteKeys keys;                       // at most 32
+    std::vector<uint64_t> hits;
+    std::unordered_map<const char *, uint32_t> by_literal;
+    void set(const RouteKeys &k) { keys = k; if (keys.size() > 32) keys.resize(32); hits.assign(keys.size(), 0); by_literal.clear(); }
+    bool match(const char *name, const char *mode)
+    {
+        auto it = by_literal.find(name);
+        if (it == by_literal.end()) {
+            uint32_t mask = 0;
+            for (size_t k = 0; k < keys.size(); ++k) if (keys[k].first == name) mask |= 1u << k;
+            it = by_literal.emplace(name, mask).first;
+        }
+        bool run = false;
+        for (uint32_t mask = it->second, k = 0; mask; mask >>= 1, ++k)
+            if ((mask & 1) && (keys[k].second.empty() || keys[k].second == mode)) { ++hits[k]; run = true; }
+        return run;
+    }
+};
 struct RouteSel {
     bool on = false, big = false;
     unsigned stride = 1, offset = 0, ordinal = 0;
+    // same_storage / soak phases: `record` collects every route the monitor meets (executed or not), in table order; while
+    // `only` is set, exactly the routes listed there are executed
+    RouteKeys *record = nullptr;
+    Selection *only = nullptr;
 };
 static RouteSel g_sel;
 static bool route_selected(const char *name, const char *mode)
 {
     if (!g_sel.on) return true;
+    if (g_sel.record) g_sel.record->emplace_back(name, mode);
+    if (g_sel.only) return g_sel.only->match(name, mode);
     const unsigned ord = g_sel.ordinal++;
     const bool run = g_sel.stride <= 1 || ord % g_sel.stride == g_sel.offset % g_sel.stride;
     if (g_sel.big) {
@@ -86,6 +120,13 @@ static bool route_selected(const char *name, const char *mode)
     static uint64_t &ran = vrt::counter("scale.route_calls.executed"), &left = vrt::counter("scale.route_calls.left_to_other_inputs");
     ++(run ? ran : left);
     return run;
+}
+// the blocks of a monitor that call the library outside the route tables (re-validation of repaired output): always run,
+// except while a phase executes a chosen list of routes - then they are part of the table like any route
+static bool extra_selected(const char *name, const char *mode)
+{
+    if (!g_sel.on || (!g_sel.only && !g_sel.record)) return true;
+    return route_selected(name, mode);
 }
 
 // got / want of a failed comparison: whole values when short, otherwise the sizes and a window around the first difference
@@ -115,6 +156,24 @@ static S units(const ST::string &s)
 template <typename T> static std::basic_string<T> units(const std::basic_string<T> &s) { return s; }
 static S units(const std::u8string &s) { return S(reinterpret_cast<const char *>(s.data()), s.size()); }
 
+// where the heap block (if any) of a result lives: same_storage phases count how often a result got the block of a dead one
+static const void *block_of(const ST::string &s) { return s.c_str(); }
+template <typename T> static const void *block_of(const ST::buffer<T> &b) { return b.data(); }
+template <typename T> static const void *block_of(const std::basic_string<T> &s) { return s.data(); }
+static bool g_track_results = false;
+static void track_result(const void *block, size_t units, size_t unit_size)
+{
+    static const void *last_block = nullptr;
+    static size_t last_bytes = 0;
+    if (units < 24) return;                       // short values live inside the object
+    const size_t bytes = units * unit_size;
+    static uint64_t &seen = vrt::counter("same_storage.results_on_the_heap"), &same = vrt::counter("same_storage.results_in_the_heap_block_of_the_previous_result_of_that_size");
+    ++seen;
+    if (block == last_block && bytes == last_bytes) ++same;
+    last_block = block;
+    last_bytes = bytes;
+}
+
 // run one route: expect either `want` or ST::unicode_error
 template <typename T, typename F>
 static void route(const char *name, const char *mode, bool want_ok, const std::basic_string<T> &want, F &&f)
@@ -124,15 +183,116 @@ static void route(const char *name, const char *mode, bool want_ok, const std::b
     g_mode = mode;
     vrt::evals();
     vrt::cur_rewind();
-    vrt::cur_printf("route=%s mode=%s input=%s%s\n", name, mode, g_in->describe().c_str(), g_note.c_str());
+    vrt::cur_printf("route=%s mode=%s input=%s%s\n", name, mode, g_in_text.c_str(), g_note.c_str());
     try {
-        std::basic_string<T> got = units(f());
+        const auto res = f();
+        std::basic_string<T> got = units(res);
+        if (g_track_results) track_result(block_of(res), got.size(), sizeof(T));
         if (!want_ok) fail("accepted-invalid", "got=" + showu(got));
         else if (got != want) fail(got.size() != want.size() ? "wrong-size" : "wrong-units", diffu(got, want));
     } catch (const ST::unicode_error &e) {
         if (want_ok) fail("unexpected-unicode_error", e.what());
     }
 }
+
+// ---------------------------------------------------------------- where the monitors keep their source data
+// Normally every input gets fresh storage: a vrt::Exact block per pointer+size source, new source buffer objects, a new
+// ST::string for the member conversions.  The same_storage / soak / alignment phases pin storage instead: while a pin for
+// the unit type is set and the input has exactly the pinned number of units, the monitors write the input over its
+// predecessor in the caller-side block the phase owns (so the library is handed the SAME pointer and length with
+// different content), and with `objects` set they destroy the source buffer object / the source ST::string of the previous
+// input and build the new one right away, with the releases parked (rt/vrt_st.h, rt/vrt_alloc.h) so that the object and
+// its heap block come back at the same addresses.
+template <typename T> struct Pin {
+    size_t n = 0;
+    T *raw = nullptr, *rawz = nullptr;      // n units ending at the end of a malloc'ed block / n units and a terminator
+    bool objects = false;
+    std::optional<vrt::Box<ST::buffer<T>>> buf;
+    void clear() { n = 0; raw = rawz = nullptr; objects = false; buf.reset(); }
+};
+template <typename T> static Pin<T> &pin() { static Pin<T> p; return p; }
+static std::optional<vrt::Box<ST::string>> g_pin_str;
+
+// park the next `n` releases (unless the phase parks everything anyway)
+struct ForceParks {
+    int saved, want;
+    explicit ForceParks(int n) : saved(vrt::placement_force_parks()), want(n) { if (saved < want) vrt::placement_force_parks() = want; }
+    ~ForceParks() { if (saved < want) vrt::placement_force_parks() = saved; }
+};
+
+template <typename T> struct Source {
+    std::optional<vrt::Exact<T>> fresh;
+    const T *p;
+    explicit Source(const std::basic_string<T> &s, bool nul = false)
+    {
+        Pin<T> &pn = pin<T>();
+        T *dst = nul ? pn.rawz : pn.raw;
+        if (dst && pn.n == s.size()) {
+            memcpy(dst, s.data(), s.size() * sizeof(T));
+            if (nul) dst[s.size()] = T();
+            p = dst;
+            static uint64_t &c = vrt::counter("same_storage.sources_written_over_their_predecessor");
+            ++c;
+        } else {
+            fresh.emplace(s.data(), s.size(), nul);
+            p = fresh->data();
+        }
+    }
+    const T *data() const { return p; }
+};
+
+template <typename T> struct BufSource {
+    std::optional<ST::buffer<T>> fresh;
+    ST::buffer<T> *b;
+    explicit BufSource(const std::basic_string<T> &s)
+    {
+        Pin<T> &pn = pin<T>();
+        if (pn.objects && pn.n == s.size()) {
+            const void *old_obj = pn.buf ? static_cast<const void *>(pn.buf->p) : nullptr;
+            const void *old_data = pn.buf ? static_cast<const void *>((*pn.buf)->data()) : nullptr;
+            const bool same_size = pn.buf && (*pn.buf)->size() == s.size();
+            { ForceParks fp(2); pn.buf.reset(); }
+            pn.buf.emplace(s.data(), s.size());
+            b = pn.buf->p;
+            if (same_size) {
+                vrt::count("same_storage.source_buffers_rebuilt");
+                if (pn.buf->p == old_obj) vrt::count("same_storage.source_buffer_object_at_the_address_of_its_predecessor");
+                if ((*pn.buf)->data() == old_data) vrt::count("same_storage.source_buffer_block_at_the_address_of_its_predecessor");
+            }
+        } else {
+            fresh.emplace(s.data(), s.size());
+            b = &*fresh;
+        }
+    }
+    ST::buffer<T> &get() { return *b; }
+};
+
+// the ST::string whose member conversions string_outputs() runs
+struct StrSource {
+    std::optional<vrt::Box<ST::string>> fresh;
+    vrt::Box<ST::string> *b;
+    StrSource(const char *p, size_t n)
+    {
+        Pin<char> &pn = pin<char>();
+        if (pn.objects && pn.n == n) {
+            const void *old_obj = g_pin_str ? static_cast<const void *>(g_pin_str->p) : nullptr;
+            const void *old_data = g_pin_str ? static_cast<const void *>((*g_pin_str)->c_str()) : nullptr;
+            const bool same_size = g_pin_str && (*g_pin_str)->size() == n;
+            { ForceParks fp(2); g_pin_str.reset(); }
+            g_pin_str.emplace(ST::string::from_validated(p, n));
+            b = &*g_pin_str;
+            if (same_size) {
+                vrt::count("same_storage.source_strings_rebuilt");
+                if (g_pin_str->p == old_obj) vrt::count("same_storage.source_string_object_at_the_address_of_its_predecessor");
+                if ((*g_pin_str)->c_str() == old_data) vrt::count("same_storage.source_string_block_at_the_address_of_its_predecessor");
+            }
+        } else {
+            fresh.emplace(ST::string::from_validated(p, n));
+            b = &*fresh;
+        }
+    }
+    vrt::Box<ST::string> &get() { return *b; }
+};
 
 struct Expect {
     bool ok8, ok16, ok32, okL, okLs;
@@ -213,15 +373,16 @@ static void string_outputs(const ST::string &s, const S &bytes, const Expect &e)
 // ---------------------------------------------------------------- UTF-8 source
 static void from_utf8(const Input &in, bool full)
 {
-    g_in = &in;
+    set_input(in);
     const S &b = in.u8;
     const ref::Decoded d = ref::decode_utf8(b);
     const bool bad = ref::has_bad(d);
-    vrt::Exact<char> x(b.data(), b.size());              // exactly n bytes, no NUL
+    Source<char> x(b);                                   // exactly n bytes, no NUL
     const char *p = x.data();
     const size_t n = b.size();
     const char8_t *p8 = reinterpret_cast<const char8_t *>(p);
-    ST::char_buffer cb(b.data(), b.size());
+    BufSource<char> cbs(b);
+    const ST::char_buffer &cb = cbs.get();
     const Expects ex(d);
     for (int mi = 0; mi < 3; ++mi) {
         const ST::utf_validation_t m = MODES[mi];
@@ -280,7 +441,7 @@ static void from_utf8(const Input &in, bool full)
             route<char>("string::from_std_string(u8view)", mn, oks, wants, [&] { return ST::string::from_std_string(std::u8string_view(p8, n), m); });
         }
         // repaired output passes check_validity (always for UTF-8 -> UTF-8)
-        if (mi == 1) {
+        if (mi == 1 && extra_selected("string(substitute)->revalidate", mn)) {
             g_route = "string(substitute)->revalidate";
             try {
                 ST::string rep(p, n, ST::substitute_invalid);
@@ -322,7 +483,7 @@ static void from_utf8(const Input &in, bool full)
                 route<char>("string=string_view", mn, oks, wants, [&] { ST::string s; s = std::string_view(p, n); return s; });
                 route<char>("string.set(const char*,n)", mn, oks, wants, [&] { ST::string s; s.set(p, n); return s; });
                 if (b.find('\0') == S::npos) {
-                    vrt::Exact<char> z(b.data(), b.size(), true);
+                    Source<char> z(b, true);
                     route<char>("string(const char*)", mn, oks, wants, [&] { return ST::string(z.data()); });
                     route<char>("string=const char*", mn, oks, wants, [&] { ST::string s("x"); s = z.data(); return s; });
                     route<char>("string=const char8_t*", mn, oks, wants, [&] { ST::string s("x"); s = reinterpret_cast<const char8_t *>(z.data()); return s; });
@@ -348,7 +509,8 @@ static void from_utf8(const Input &in, bool full)
         route<char>("operator\"\"_st(char8_t)", "n/a", true, b, [&] { return ST::literals::operator""_st(p8, n); });
         route<char>("operator\"\"_stbuf(char)", "n/a", true, b, [&] { return ST::literals::operator""_stbuf(p, n); });
         route<char>("operator\"\"_stbuf(char8_t)", "n/a", true, b, [&] { return ST::literals::operator""_stbuf(p8, n); });
-        vrt::Box<ST::string> st(ST::string::from_validated(p, n));
+        StrSource sts(p, n);
+        vrt::Box<ST::string> &st = sts.get();
         string_outputs(*st, b, ex(false));
         // std::filesystem::path routes (text without NUL; a path is a C string underneath)
         if (full && !bad && !ref::has_nonscalar(d) && b.find('\0') == S::npos) {
@@ -367,13 +529,14 @@ static void from_utf8(const Input &in, bool full)
 // ---------------------------------------------------------------- UTF-16 source
 static void from_utf16(const Input &in, bool full)
 {
-    g_in = &in;
+    set_input(in);
     const S16 &u = in.u16;
     const ref::Decoded d = ref::decode_utf16(u.data(), u.size());
-    vrt::Exact<char16_t> x(u.data(), u.size());
+    Source<char16_t> x(u);
     const char16_t *p = x.data();
     const size_t n = u.size();
-    ST::utf16_buffer ub(u.data(), u.size());
+    BufSource<char16_t> ubs(u);
+    const ST::utf16_buffer &ub = ubs.get();
     const Expects ex(d);
     for (int mi = 0; mi < 3; ++mi) {
         const ST::utf_validation_t m = MODES[mi];
@@ -403,7 +566,7 @@ static void from_utf16(const Input &in, bool full)
             route<char>("string::from_std_string(u16string)", mn, e.ok8, e.e8, [&] { return ST::string::from_std_string(u, m); });
             route<char>("string::from_std_string(u16view)", mn, e.ok8, e.e8, [&] { return ST::string::from_std_string(std::u16string_view(p, n), m); });
         }
-        if (mi == 1 && !ref::has_nonscalar(d)) {
+        if (mi == 1 && !ref::has_nonscalar(d) && extra_selected("utf16(substitute)->revalidate", mn)) {
             g_route = "utf16(substitute)->revalidate";
             try {
                 ST::char_buffer r8 = ST::utf16_to_utf8(p, n, ST::substitute_invalid);
@@ -430,7 +593,7 @@ static void from_utf16(const Input &in, bool full)
             route<char>("string=u16string_view", mn, e.ok8, e.e8, [&] { ST::string s; s = std::u16string_view(p, n); return s; });
             route<char>("string::from_utf16", mn, e.ok8, e.e8, [&] { return ST::string::from_utf16(p, n); });
             if (u.find(u'\0') == S16::npos) {
-                vrt::Exact<char16_t> z(u.data(), u.size(), true);
+                Source<char16_t> z(u, true);
                 route<char>("string(const char16_t*)", mn, e.ok8, e.e8, [&] { return ST::string(z.data()); });
                 route<char>("string=const char16_t*", mn, e.ok8, e.e8, [&] { ST::string s("x"); s = z.data(); return s; });
                 route<char>("string::from_utf16(cstr)", mn, e.ok8, e.e8, [&] { return ST::string::from_utf16(z.data()); });
@@ -448,17 +611,19 @@ static void from_utf16(const Input &in, bool full)
 // ---------------------------------------------------------------- UTF-32 / wchar_t source
 static void from_utf32(const Input &in, bool full)
 {
-    g_in = &in;
+    set_input(in);
     const S32 &u = in.u32;
     const SW w = to_w(u);
     const ref::Decoded d = ref::decode_utf32(u.data(), u.size());
-    vrt::Exact<char32_t> x(u.data(), u.size());
-    vrt::Exact<wchar_t> xw(w.data(), w.size());
+    Source<char32_t> x(u);
+    Source<wchar_t> xw(w);
     const char32_t *p = x.data();
     const wchar_t *pw = xw.data();
     const size_t n = u.size();
-    ST::utf32_buffer ub(u.data(), u.size());
-    ST::wchar_buffer wb(w.data(), w.size());
+    BufSource<char32_t> ubs(u);
+    BufSource<wchar_t> wbs(w);
+    const ST::utf32_buffer &ub = ubs.get();
+    const ST::wchar_buffer &wb = wbs.get();
     const Expects ex(d);
     for (int mi = 0; mi < 3; ++mi) {
         const ST::utf_validation_t m = MODES[mi];
@@ -512,7 +677,7 @@ static void from_utf32(const Input &in, bool full)
             route<char>("string::from_std_string(wview)", mn, e.ok8, e.e8, [&] { return ST::string::from_std_string(std::wstring_view(pw, n), m); });
             route<char>("string::from_std_wstring(view)", mn, e.ok8, e.e8, [&] { return ST::string::from_std_wstring(std::wstring_view(pw, n), m); });
         }
-        if (mi == 1 && !ref::has_nonscalar(d)) {
+        if (mi == 1 && !ref::has_nonscalar(d) && extra_selected("utf32(substitute)->revalidate", mn)) {
             g_route = "utf32(substitute)->revalidate";
             try {
                 ST::char_buffer r8 = ST::utf32_to_utf8(p, n, ST::substitute_invalid);
@@ -545,8 +710,8 @@ static void from_utf32(const Input &in, bool full)
             route<char>("string::from_utf32", mn, e.ok8, e.e8, [&] { return ST::string::from_utf32(p, n); });
             route<char>("string::from_wchar", mn, e.ok8, e.e8, [&] { return ST::string::from_wchar(pw, n); });
             if (u.find(U'\0') == S32::npos) {
-                vrt::Exact<char32_t> z(u.data(), u.size(), true);
-                vrt::Exact<wchar_t> zw(w.data(), w.size(), true);
+                Source<char32_t> z(u, true);
+                Source<wchar_t> zw(w, true);
                 route<char>("string(const char32_t*)", mn, e.ok8, e.e8, [&] { return ST::string(z.data()); });
                 route<char>("string(const wchar_t*)", mn, e.ok8, e.e8, [&] { return ST::string(zw.data()); });
                 route<char>("string=const char32_t*", mn, e.ok8, e.e8, [&] { ST::string s("x"); s = z.data(); return s; });
@@ -568,14 +733,15 @@ static void from_utf32(const Input &in, bool full)
 // ---------------------------------------------------------------- Latin-1 source
 static void from_latin1(const Input &in)
 {
-    g_in = &in;
+    set_input(in);
     const S &b = in.u8;
     const ref::Decoded d = ref::decode_latin1(reinterpret_cast<const unsigned char *>(b.data()), b.size());
     const Expect e = expect(d, true);
-    vrt::Exact<char> x(b.data(), b.size());
+    Source<char> x(b);
     const char *p = x.data();
     const size_t n = b.size();
-    ST::char_buffer cb(b.data(), b.size());
+    BufSource<char> cbs(b);
+    const ST::char_buffer &cb = cbs.get();
     const char *mn = "n/a";
     route<char>("latin_1_to_utf8", mn, true, e.e8, [&] { return ST::latin_1_to_utf8(p, n); });
     route<char16_t>("latin_1_to_utf16", mn, true, e.e16, [&] { return ST::latin_1_to_utf16(p, n); });
@@ -588,7 +754,7 @@ static void from_latin1(const Input &in)
     route<char>("string::from_latin_1", mn, true, e.e8, [&] { return ST::string::from_latin_1(p, n); });
     route<char>("string::from_latin_1(buffer)", mn, true, e.e8, [&] { return ST::string::from_latin_1(cb); });
     if (b.find('\0') == S::npos) {
-        vrt::Exact<char> z(b.data(), b.size(), true);
+        Source<char> z(b, true);
         route<char>("string::from_latin_1(cstr)", mn, true, e.e8, [&] { return ST::string::from_latin_1(z.data()); });
     }
     // ... and back: every byte string taken as Latin-1 survives any UTF form
@@ -617,7 +783,7 @@ static void from_scalars(const std::vector<unsigned long> &cps, bool full)
     from_utf32(c, full);
     if (full) {
         // chains return the original units
-        g_in = &a;
+        set_input(a);
         const S &u8 = a.u8;
         route<char>("chain 8->16->32->8", "check_validity", true, u8, [&] {
             return ST::utf32_to_utf8(ST::utf16_to_utf32(ST::utf8_to_utf16(u8.data(), u8.size(), ST::check_validity), ST::check_validity), ST::check_validity); });
@@ -636,7 +802,7 @@ static std::vector<unsigned long> neighbours = {0x41, 0xE9, 0x20AC, 0x1F600};
 static void char_concatenation(unsigned long c)
 {
     Input in{32, {}, {}, S32(1, static_cast<char32_t>(c))};
-    g_in = &in;
+    set_input(in);
     S enc;
     ref::enc_utf8(enc, c);
     const S base = "ab\xC3\xA9", longbase = "a base that is long enough to live on the heap \xE2\x82\xAC";
@@ -691,6 +857,11 @@ static unsigned long random_scalar(Rng &r)
 }
 
 static void scale_phase(bool wellformed, uint64_t quick_cases);
+namespace pinned {
+static void same_storage_phase(bool wellformed, uint64_t quick_passes);
+static void alignment_phase(bool wellformed);
+static void soak_phase(bool wellformed);
+}
 
 static void c01_body()
 {
@@ -772,6 +943,9 @@ static void c01_body()
         }
     });
     scale_phase(true, 700);
+    pinned::same_storage_phase(true, 10);
+    pinned::alignment_phase(true);
+    pinned::soak_phase(true);
 }
 
 // ---- malformed inputs ----------------------------------------------------
@@ -950,7 +1124,7 @@ static void malformed_phases(bool safety_only)
         vrt::phase("null_and_empty", 1, [&](uint64_t, Rng &) {
             Input e8{8, {}, {}, {}}, e16{16, {}, {}, {}}, e32{32, {}, {}, {}}, e1{1, {}, {}, {}};
             from_utf8(e8, true); from_utf16(e16, true); from_utf32(e32, true); from_latin1(e1);
-            g_in = &e8;
+            set_input(e8);
             for (int mi = 0; mi < 3; ++mi) {
                 const ST::utf_validation_t m = MODES[mi];
                 const char *mn = mname(mi);
@@ -1392,6 +1566,633 @@ static void scale_phase(bool wellformed, uint64_t quick_cases)
     });
 }
 
+// ================================================================ same_storage / soak / alignment phases (C01, C02, C03)
+// What the phases above never produce is HISTORY: every input there sits in a fresh heap block (and under ASan a freed block
+// is not handed out again for a long time), every source object is new, and two consecutive calls of one route hardly ever
+// see related inputs.  A conversion that keeps something between calls - the measure of "the last long input" keyed by
+// (pointer, length, a few bytes from both ends), a "these bytes were validated already" verdict, a fast path that is armed by
+// a streak of ASCII-only calls, a table that wraps after 2^16 calls - is right on every first call and on all fresh storage.
+//  * same_storage: 3..6 contents of IDENTICAL length that share their first and last 16 units (8 for the 20-unit size) and
+//    differ in between in what the conversions depend on (how many units each character takes in the target encodings, and
+//    for C02/C03 whether an ill-formed unit is present: valid -> invalid -> valid ... in both orders), all given to the
+//    library at the SAME addresses: the caller-side block is overwritten in place, the std::basic_string source is assigned
+//    in place, source buffer objects and the source ST::string are destroyed and rebuilt with their releases parked.  First
+//    chosen windows of 1..8 routes of the monitor's table are run over all contents in turn (so that the last call before
+//    and the first call after each change of content are the same route on the same storage - single-entry state is not
+//    evicted by the other 400 calls of the table); then every content goes through the whole table.
+//  * soak: one case = tens of thousands of consecutive inputs through a few routes (so every one of them is called more
+//    than 70000 times in a row in one process): runs of 64..300 pure-ASCII (or otherwise uniform, or identical) inputs of
+//    16..64 units, followed directly by inputs whose only non-ASCII / ill-formed units sit in the last 1..7 units, or in
+//    the 1..7 units behind (or straddling) the first 8-byte address boundary after the start, or in the middle of an input
+//    that otherwise repeats the previous one at the same address.
+//  * alignment: short inputs (8..65 units) at every start alignment 0..15 with one character of another width / one
+//    ill-formed piece at every offset 0..16 from the start and -3..+8 from the first 8-byte address boundary.
+namespace pinned {
+
+using big::Str;
+using big::Enc;
+using big::E8;
+using big::E16;
+using big::E32;
+using big::EL;
+using big::Bg;
+using big::Piece;
+
+// caller-side storage: `n` units that end where the malloc'ed block ends and start `lead` bytes into it
+template <typename T> struct Block {
+    void *base;
+    T *p;
+    size_t n, lead;
+    Block(size_t units, size_t lead_bytes) : n(units), lead(lead_bytes)
+    {
+        base = malloc(lead + units * sizeof(T));
+        if (!base) { fprintf(stderr, "conv: out of memory\n"); _exit(98); }
+        memset(base, 0x80, lead);
+        p = reinterpret_cast<T *>(static_cast<char *>(base) + lead);
+        if (lead == 8 && reinterpret_cast<uintptr_t>(base) % 8 == 0) vrt::RecyclePool::poison(base, 8);
+    }
+    ~Block()
+    {
+        if (lead == 8 && reinterpret_cast<uintptr_t>(base) % 8 == 0) vrt::RecyclePool::unpoison(base, 8);
+        free(base);
+    }
+    Block(const Block &) = delete;
+    Block &operator=(const Block &) = delete;
+};
+
+struct Guard {
+    ~Guard()
+    {
+        pin<char>().clear(); pin<char16_t>().clear(); pin<char32_t>().clear(); pin<wchar_t>().clear();
+        g_pin_str.reset();
+        g_sel = RouteSel();
+        g_note.clear();
+        g_track_results = false;
+        vrt::placement_force_parks() = 0;
+    }
+};
+
+// the current-case recorder holds the case header, then ONE description of the input at hand, then the route being run
+static size_t g_case_mark = 0;
+static void begin_case() { g_case_mark = vrt::cur_mark(); }
+static void record_note()
+{
+    vrt::cur_mark() = g_case_mark;
+    vrt::cur_rewind();
+    if (!g_note.empty()) vrt::cur_printf("%s\n", g_note.c_str());
+    vrt::cur_mark_here();
+}
+
+static int enc_code(Enc e) { return e == E8 ? 8 : e == E16 ? 16 : e == E32 ? 32 : 1; }
+static void put(Input &in, const S &s) { in.u8.assign(s); }             // same size as before: std::basic_string keeps its block
+static void put(Input &in, const S16 &s) { in.u16.assign(s); }
+static void put(Input &in, const S32 &s) { in.u32.assign(s); }
+static void feed(Enc e, const Input &in, bool full)
+{
+    switch (e) {
+    case E8: from_utf8(in, full); break;
+    case E16: from_utf16(in, full); break;
+    case E32: from_utf32(in, full); break;
+    default: from_latin1(in); break;
+    }
+}
+static ref::Decoded decode(Enc e, const S &s)
+{
+    return e == EL ? ref::decode_latin1(reinterpret_cast<const unsigned char *>(s.data()), s.size()) : ref::decode_utf8(s);
+}
+static ref::Decoded decode(Enc, const S16 &s) { return ref::decode_utf16(s.data(), s.size()); }
+static ref::Decoded decode(Enc, const S32 &s) { return ref::decode_utf32(s.data(), s.size()); }
+static bool rejected_by_check_validity(const ref::Decoded &d)
+{
+    for (long v : d) if (v == ref::BAD || v > 0x10FFFF) return true;
+    return false;
+}
+static void must_be_scalars(const ref::Decoded &d, const char *phase)
+{
+    for (long v : d)
+        if (v < 0 || !ref::is_scalar(static_cast<unsigned long>(v))) { fprintf(stderr, "conv: %s generator produced ill-formed text for C01\n", phase); _exit(98); }
+}
+template <typename T> static T certainly_bad_unit(Enc e) { return static_cast<T>(e == E8 ? 0xFF : e == E16 ? 0xD800 : 0x110000); }
+
+// pins for one unit type: a block of n units and one of n units + terminator, both starting `lead` bytes into their block
+template <typename T> struct Blocks {
+    Block<T> raw, rawz;
+    Blocks(size_t n, size_t lead) : raw(n, lead), rawz(n + 1, lead) { }
+    void attach(bool objects)
+    {
+        Pin<T> &pn = pin<T>();
+        pn.n = raw.n; pn.raw = raw.p; pn.rawz = rawz.p; pn.objects = objects;
+    }
+};
+
+static void record_table(Enc e, const Input &in, RouteKeys &table)
+{
+    static Selection nothing;
+    nothing.set(RouteKeys());
+    g_sel = RouteSel();
+    g_sel.on = true;
+    g_sel.record = &table;
+    g_sel.only = &nothing;
+    feed(e, in, true);
+    g_sel = RouteSel();
+}
+static void feed_only(Enc e, const Input &in, Selection &sel)
+{
+    g_sel = RouteSel();
+    g_sel.on = true;
+    g_sel.only = &sel;
+    feed(e, in, true);
+    g_sel = RouteSel();
+}
+
+// ---------------------------------------------------------------- same_storage
+static const char *const MID_NAME[] = {"ascii", "one_non_ascii_character_repeated", "mixed_widths", "ascii_with_one_non_ascii_character",
+                                       "ill_formed_pieces_in_well_formed_text", "one_ill_formed_unit_repeated", "well_formed_text_entered_one_unit_late",
+                                       "previous_content_with_one_piece_planted"};
+
+template <typename T> static Str<T> middle(Rng &r, Enc e, size_t m, unsigned cls)
+{
+    Str<T> out;
+    switch (cls) {
+    case 0: big::fill(out, m, big::background<T>(r, e, r.chance(1, 2) ? 0 : 1), r); break;
+    case 1: big::fill(out, m, big::background<T>(r, e, 2), r); break;
+    case 2: big::fill(out, m, big::background<T>(r, e, 3), r); break;
+    case 3: {
+        const Bg<T> a = big::background<T>(r, e, r.chance(1, 2) ? 0 : 1);
+        big::fill(out, m, a, r);
+        const Piece<T> p = big::valid_piece(r, e, a);
+        if (p.u.size() <= m) out.replace(r.below(m - p.u.size() + 1), p.u.size(), p.u);
+        break;
+    }
+    case 4: {
+        const Bg<T> a = big::background<T>(r, e, r.chance(2, 3) ? static_cast<unsigned>(r.below(2)) : 2);
+        big::fill(out, m, a, r);
+        for (int k = static_cast<int>(1 + r.below(3)); k-- > 0;) {
+            const Piece<T> p = big::ill_piece(r, r.chance(1, 2), static_cast<const T *>(nullptr));
+            if (p.u.size() <= m) out.replace(r.below(m - p.u.size() + 1), p.u.size(), p.u);
+        }
+        break;
+    }
+    case 5: big::fill(out, m, big::background<T>(r, e, 4), r); break;
+    default:
+        big::fill(out, m, big::background<T>(r, e, r.chance(1, 2) ? 2 : 3), r);
+        if (m > 1) std::rotate(out.begin(), out.begin() + 1, out.end());
+        break;
+    }
+    return out;
+}
+
+template <typename T> struct Content {
+    Str<T> s;
+    bool invalid = false;       // check_validity rejects it
+    size_t chars = 0;           // decoded values (bad units count one each)
+    unsigned cls = 0;
+};
+
+// K contents of n units with the same first and last `probe` units; for the malformed properties valid and invalid ones alternate
+template <typename T>
+static std::vector<Content<T>> contents(Rng &r, Enc e, size_t n, size_t probe, size_t K, bool wellformed, bool first_invalid)
+{
+    const bool can_be_invalid = !wellformed && e != EL;
+    const Bg<T> endbg = big::background<T>(r, e, r.chance(2, 3) ? 1 : 3);
+    Str<T> head, tail;
+    big::fill(head, probe, endbg, r);
+    big::fill(tail, probe, endbg, r);
+    const size_t m = n - 2 * probe;
+    std::vector<Content<T>> out;
+    std::vector<Str<T>> mids;
+    unsigned last_valid_cls = 99;
+    for (size_t k = 0; k < K; ++k) {
+        const bool want_invalid = can_be_invalid && ((k % 2 == 0) == first_invalid);
+        Content<T> c;
+        Str<T> mid;
+        for (int tries = 0;; ++tries) {
+            unsigned cls = want_invalid ? 4 + static_cast<unsigned>(r.below(3)) : static_cast<unsigned>(r.below(4));
+            if (!want_invalid && cls == last_valid_cls) cls = (cls + 1 + static_cast<unsigned>(r.below(3))) % 4;
+            if (tries == 0 && k > 0 && r.chance(1, 3) && out.back().cls == 0) {
+                // the smallest change: the previous (plain ASCII) middle with one character of another width / one ill-formed piece
+                // planted somewhere, so that the two contents agree wherever a sparse fingerprint is likely to look
+                mid = mids.back();
+                const Piece<T> p = want_invalid ? big::ill_piece(r, r.chance(1, 2), static_cast<const T *>(nullptr)) : big::valid_piece(r, e, big::background<T>(r, e, 1));
+                if (p.u.size() <= m) { mid.replace(r.below(m - p.u.size() + 1), p.u.size(), p.u); cls = 7; }
+                else mid = middle<T>(r, e, m, cls);
+            } else mid = middle<T>(r, e, m, cls);
+            if (tries >= 6) {                     // certain outcome
+                mid.assign(m, static_cast<T>('a'));
+                cls = 0;
+                if (want_invalid) { mid[r.below(m > 1 ? m - 1 : 1)] = certainly_bad_unit<T>(e); cls = 4; }
+            }
+            c.s = head + mid + tail;
+            c.cls = cls;
+            const ref::Decoded d = decode(e, c.s);
+            c.invalid = rejected_by_check_validity(d);
+            c.chars = d.size();
+            if (wellformed) must_be_scalars(d, "same_storage");
+            if (c.invalid == want_invalid && (out.empty() || out.back().s != c.s)) break;
+            if (tries > 12) break;
+        }
+        if (!c.invalid) last_valid_cls = c.cls;
+        out.push_back(c);
+        mids.push_back(mid);
+    }
+    return out;
+}
+
+template <typename T> static void note_content(Enc e, const Content<T> &c, size_t k, size_t K, size_t probe, const T *at, const char *pass)
+{
+    const size_t shown = std::min<size_t>(c.s.size() - probe, probe + 24);
+    g_note = sfmt(" [same_storage %s: content %zu of %zu in this storage, %zu %s units at %p (address mod 16 = %u), fnv=%016llx, first and last %zu units shared, middle %s (%zu values%s), units[%zu..]=%s]",
+                  pass, k + 1, K, c.s.size(), big::ENC_NAME[e], static_cast<const void *>(at), static_cast<unsigned>(reinterpret_cast<uintptr_t>(at) % 16),
+                  static_cast<unsigned long long>(vrt::fnv1a(c.s.data(), c.s.size() * sizeof(T))), probe, MID_NAME[c.cls], c.chars, c.invalid ? ", rejected by check_validity" : "",
+                  probe, vrt::hex(c.s.data() + probe, shown - probe > 24 ? 24 : shown - probe, sizeof(T)).c_str());
+    record_note();
+}
+
+template <typename T>
+static void same_case(uint64_t i, Rng &r, bool wellformed, Enc e, size_t n)
+{
+    Guard guard;
+    begin_case();
+    const size_t lead = static_cast<size_t>(r.below(16)) & ~(sizeof(T) - 1);
+    const size_t probe = n >= 40 ? 16 : 8;
+    const size_t K = 3 + r.below(4);
+    const bool first_invalid = r.chance(1, 2);
+    const std::vector<Content<T>> cs = contents<T>(r, e, n, probe, K, wellformed, first_invalid);
+    Blocks<T> blocks(n, lead);
+    std::unique_ptr<Blocks<wchar_t>> wblocks;
+    blocks.attach(true);
+    if (e == E32) { wblocks.reset(new Blocks<wchar_t>(n, lead)); wblocks->attach(true); }
+    const bool park_all = r.chance(1, 2);           // every release in this case is parked: the next request of that size gets the address back, as from a real allocator
+    g_track_results = true;
+    if (park_all) vrt::placement_force_parks() = 1 << 30;
+    Input in{enc_code(e), {}, {}, {}};
+
+    // the routes the monitor runs for these contents (the longer of the tables of the first two)
+    RouteKeys table, t2;
+    put(in, cs[0].s); record_table(e, in, table);
+    put(in, cs[1].s); record_table(e, in, t2);
+    if (t2.size() > table.size()) table.swap(t2);
+    if (table.empty()) { fprintf(stderr, "conv: empty route table\n"); _exit(98); }
+
+    // windows of the table over all contents in turn
+    const size_t J = n >= 16384 ? 6 : 8 + r.below(9);
+    Selection sel;
+    for (size_t j = 0; j < J; ++j) {
+        static const size_t lens[] = {1, 1, 1, 2, 2, 3, 5, 8};
+        const size_t start = j == 0 ? static_cast<size_t>((i / 4) * 7 % table.size()) : r.below(table.size()), len = r.pick(lens);
+        RouteKeys w;
+        for (size_t l = 0; l < len; ++l) w.push_back(table[(start + l) % table.size()]);
+        sel.set(w);
+        for (size_t k = 0; k < K; ++k) {
+            note_content(e, cs[k], k, K, probe, blocks.raw.p, "window");
+            put(in, cs[k].s);
+            feed_only(e, in, sel);
+        }
+        for (uint64_t h : sel.hits) vrt::count("same_storage.window_route_calls", h);
+        vrt::count("same_storage.windows");
+        vrt::count(sfmt("same_storage.window_length.%zu", len));
+    }
+    // every content through the whole table (every 9th route, rotating, on the biggest sizes)
+    for (size_t k = 0; k < K; ++k) {
+        note_content(e, cs[k], k, K, probe, blocks.raw.p, "whole table");
+        put(in, cs[k].s);
+        if (n * table.size() > 4000000) {
+            RouteKeys w;
+            for (size_t t = (i + k) % 17; t < table.size(); t += 17) w.push_back(table[t]);
+            sel.set(w);
+            feed_only(e, in, sel);
+        } else {
+            feed(e, in, true);
+        }
+        vrt::count("same_storage.contents");
+        vrt::distinct(vrt::fnv1a(cs[k].s.data(), cs[k].s.size() * sizeof(T), 77 + static_cast<uint64_t>(e)));
+        if (k) {
+            if (cs[k - 1].invalid != cs[k].invalid) vrt::count(cs[k].invalid ? "same_storage.pairs.valid_then_invalid" : "same_storage.pairs.invalid_then_valid");
+            if (cs[k - 1].chars != cs[k].chars) vrt::count(cs[k - 1].chars > cs[k].chars ? "same_storage.pairs.more_characters_then_fewer" : "same_storage.pairs.fewer_characters_then_more");
+        }
+        vrt::count(sfmt("same_storage.middle.%s", MID_NAME[cs[k].cls]));
+    }
+    vrt::count("same_storage.cases");
+    vrt::count(sfmt("same_storage.source.%s", big::ENC_NAME[e]));
+    vrt::count(park_all ? "same_storage.cases_with_every_release_parked" : "same_storage.cases_with_only_the_source_objects_parked");
+    if (reinterpret_cast<uintptr_t>(blocks.raw.p) % 8) vrt::count("same_storage.cases_with_sources_not_8_byte_aligned");
+    if (n >= 1024) vrt::count("same_storage.cases>=1024_units");
+    if (n >= 65536) vrt::count("same_storage.cases>=64Ki_units");
+    if (vrt::want_sample("same_storage") && n >= 1024 && K >= 4) {
+        std::string seq;
+        for (size_t k = 0; k < K; ++k) seq += sfmt("%s%s (%zu values%s)", k ? " -> " : "", MID_NAME[cs[k].cls], cs[k].chars, cs[k].invalid ? ", invalid" : "");
+        vrt::sample("same_storage", sfmt("%zu %s units, block starts %zu bytes after a 16-byte boundary, first/last %zu units shared; middles: %s; %zu windows of the route table over all contents, then the whole table per content",
+                                         n, big::ENC_NAME[e], lead, probe, seq.c_str(), J));
+    }
+}
+
+static void same_storage_phase(bool wellformed, uint64_t quick_passes)
+{
+    const bool valgrind = vrt::opt().scale < 1.0;
+    static const size_t SZ[] = {20, 40, 64, 100, 256, 300, 1024, 1500, 4096, 5000, 65536};
+    const size_t NS = sizeof(SZ) / sizeof(SZ[0]);
+    const bool malformed = !wellformed;
+    vrt::require("same_storage.cases", valgrind ? 20 : 200);
+    vrt::require("same_storage.contents", valgrind ? 60 : 800);
+    vrt::require("same_storage.sources_written_over_their_predecessor", valgrind ? 500 : 10000);
+    vrt::require("same_storage.pairs.more_characters_then_fewer", valgrind ? 5 : 100);
+    vrt::require("same_storage.pairs.fewer_characters_then_more", valgrind ? 5 : 100);
+    if (malformed) {
+        vrt::require("same_storage.pairs.valid_then_invalid", valgrind ? 5 : 100);
+        vrt::require("same_storage.pairs.invalid_then_valid", valgrind ? 5 : 100);
+    }
+    vrt::require("same_storage.cases>=1024_units", valgrind ? 5 : 50);
+    if (!valgrind) vrt::require("same_storage.cases>=64Ki_units", 4);
+    vrt::require("same_storage.cases_with_sources_not_8_byte_aligned", valgrind ? 3 : 50);
+    vrt::require("same_storage.source_buffer_object_at_the_address_of_its_predecessor", valgrind ? 100 : 2000);
+    vrt::require("same_storage.source_buffer_block_at_the_address_of_its_predecessor", valgrind ? 100 : 2000);
+    vrt::require("same_storage.source_string_object_at_the_address_of_its_predecessor", valgrind ? 20 : 500);
+    vrt::require("same_storage.source_string_block_at_the_address_of_its_predecessor", valgrind ? 20 : 500);
+    vrt::require("same_storage.results_in_the_heap_block_of_the_previous_result_of_that_size", valgrind ? 100 : 2000);
+    vrt::note("same_storage: 3..6 contents of one length (20 .. 5000 units and 64 Ki) sharing their first and last 16 units, written over each other at one address (caller block, std string, source buffer object and "
+              "source ST::string rebuilt in place); windows of 1..8 routes over all contents in turn, then the whole route table per content");
+    vrt::phase("same_storage", vrt::tier_count(4 * NS * quick_passes, 4 * NS * quick_passes * 25), [&, wellformed, valgrind, NS](uint64_t i, Rng &r) {
+        const Enc e = static_cast<Enc>(i % 4);
+        const size_t si = (i / 4) % NS, pass = i / (4 * NS);
+        size_t n = SZ[si];
+        if (n == 65536) n = valgrind ? 8192 : pass % 3 == 0 ? 65536 : pass % 3 == 1 ? 65536 + 24 + r.below(4000) : 32768 + r.below(32768);
+        else if (pass % 4 == 3) n += 1 + r.below(9);
+        switch (e) {
+        case E16: same_case<char16_t>(i, r, wellformed, e, n); break;
+        case E32: same_case<char32_t>(i, r, wellformed, e, n); break;
+        default: same_case<char>(i, r, wellformed, e, n); break;
+        }
+    });
+}
+
+// ---------------------------------------------------------------- soak
+static RouteKeys names(std::initializer_list<const char *> l)
+{
+    RouteKeys k;
+    for (const char *n : l) k.emplace_back(n, "");
+    return k;
+}
+// the routes a soak case calls for every input (every mode of each); one list per case, by source encoding
+static RouteKeys core_routes(Enc e, unsigned flavour)
+{
+    switch (e) {
+    case E8:
+        switch (flavour % 4) {
+        case 0: return names({"utf8_to_utf16", "utf8_to_utf32", "utf8_to_wchar", "utf8_to_latin_1", "string(const char*,n)"});
+        case 1: return names({"string::from_utf8", "string.set(const char*,n)", "string(string_view)", "string(std::string)", "utf8_to_utf16(buffer)"});
+        case 2: return names({"string.to_utf16", "string.to_utf32", "string.to_wchar", "string.to_latin_1", "string.to_std_u16string", "string::from_validated"});
+        default: return names({"utf8_to_utf16(char8_t)", "utf8_to_utf32(buffer)", "utf8_to_latin_1(false)", "string(char_buffer)", "string.set(char_buffer)"});
+        }
+    case E16:
+        if (flavour % 2 == 0) return names({"utf16_to_utf8", "utf16_to_utf32", "utf16_to_wchar", "utf16_to_latin_1", "string(const char16_t*,n)"});
+        return names({"utf16_to_utf8(buffer)", "string::from_utf16", "string.set(char16_t*,n)", "string(u16string_view)", "utf16_to_latin_1(false)"});
+    case E32:
+        if (flavour % 2 == 0) return names({"utf32_to_utf8", "utf32_to_utf16", "utf32_to_latin_1", "string(const char32_t*,n)", "utf32_to_wchar"});
+        return names({"wchar_to_utf8", "wchar_to_utf16", "wchar_to_latin_1", "string(const wchar_t*,n)", "wchar_to_utf32"});
+    default:
+        if (flavour % 2 == 0) return names({"latin_1_to_utf8", "latin_1_to_utf16", "latin_1_to_utf32", "latin_1_to_wchar", "string::from_latin_1"});
+        return names({"latin_1_to_utf8(buffer)", "latin1->utf8->latin1", "latin1->utf16->latin1", "latin1->string->latin1", "string::from_latin_1(cstr)"});
+    }
+}
+
+template <typename T> static Str<T> ascii_text(Rng &r, size_t n, bool constant)
+{
+    Str<T> s(n, static_cast<T>("ax _0"[r.below(5)]));
+    if (!constant) for (auto &c : s) c = static_cast<T>(0x20 + r.below(0x5F));
+    return s;
+}
+// a well-formed non-ASCII character, or (malformed properties, one in two) an ill-formed piece
+template <typename T> static Piece<T> feature(Rng &r, Enc e, bool wellformed, const Bg<T> &ascii)
+{
+    if (wellformed || e == EL || r.chance(1, 2)) return big::valid_piece(r, e, ascii);
+    return big::ill_piece(r, r.chance(1, 2), static_cast<const T *>(nullptr));
+}
+
+template <typename T> struct BlockCache {
+    std::map<std::pair<size_t, size_t>, std::unique_ptr<Block<T>>> m;
+    T *get(size_t n, size_t lead)
+    {
+        std::unique_ptr<Block<T>> &b = m[std::make_pair(n, lead)];
+        if (!b) b.reset(new Block<T>(n, lead));
+        return b->p;
+    }
+};
+
+template <typename T>
+static void soak_case(uint64_t i, Rng &r, bool wellformed, Enc e, unsigned flavour)
+{
+    Guard guard;
+    begin_case();
+    const bool valgrind = vrt::opt().scale < 1.0;
+    const uint64_t target = valgrind ? 2000 : 70001;
+    const RouteKeys core = core_routes(e, flavour);
+    BlockCache<T> cache;
+    BlockCache<wchar_t> wcache;
+    Input in{enc_code(e), {}, {}, {}};
+    const Bg<T> asciibg = big::background<T>(r, e, 1);
+    auto place = [&](size_t n, size_t lead) -> const T * {
+        Pin<T> &pn = pin<T>();
+        pn.n = n; pn.raw = cache.get(n, lead); pn.rawz = nullptr; pn.objects = false;
+        if (e == E32) { Pin<wchar_t> &pw = pin<wchar_t>(); pw.n = n; pw.raw = wcache.get(n, lead); pw.rawz = nullptr; pw.objects = false; }
+        return pn.raw;
+    };
+    auto lead_of = [&]() { return static_cast<size_t>(r.below(16)) & ~(sizeof(T) - 1); };
+
+    // the whole table (for the routes that join the core for one segment each)
+    RouteKeys table;
+    put(in, ascii_text<T>(r, 24, false));
+    record_table(e, in, table);
+    std::vector<uint64_t> core_calls(core.size(), 0);
+    const uint64_t evals_before = vrt::st().evaluations;
+    uint64_t inputs = 0, segments = 0, interesting = 0;
+    Selection sel;
+    auto least = [&]() { uint64_t m = ~uint64_t(0); for (uint64_t c : core_calls) m = std::min(m, c); return m; };
+    Str<T> cur;
+    while (least() < target && inputs < 400000) {
+        RouteKeys keys = core;
+        for (size_t x = 0; x < 3; ++x) keys.push_back(table[(i * 131 + segments * 3 + x) % table.size()]);
+        sel.set(keys);
+        // ---- the run: varied ASCII / one ASCII input repeated / one uniform non-ASCII input repeated
+        const size_t run = 64 + r.below(237);
+        const unsigned kind = static_cast<unsigned>(r.below(20));
+        const bool repeated = kind >= 12, uniform_non_ascii = kind >= 17;
+        size_t n = 16 + r.below(49), lead = lead_of();
+        if (repeated) {
+            if (uniform_non_ascii) { cur.clear(); big::fill(cur, n, big::background<T>(r, e, 2), r); }
+            else cur = ascii_text<T>(r, n, r.chance(1, 2));
+        }
+        g_note.clear();
+        for (size_t k = 0; k < run; ++k) {
+            if (!repeated) { n = 16 + r.below(49); lead = lead_of(); cur = ascii_text<T>(r, n, r.chance(1, 4)); }
+            place(n, lead);
+            put(in, cur);
+            feed_only(e, in, sel);
+            ++inputs;
+        }
+        vrt::count(!repeated ? "soak.runs.ascii_inputs_of_varying_length_and_address" : uniform_non_ascii ? "soak.runs.one_uniform_non_ascii_input_repeated" : "soak.runs.one_ascii_input_repeated");
+        const Str<T> base = cur;                    // the last input of the run, and where it was
+        const size_t base_lead = lead;
+        // ---- directly behind it: 1..3 inputs with something in an awkward place
+        for (size_t q = 1 + r.below(3); q-- > 0;) {
+            unsigned where = static_cast<unsigned>(r.below(repeated ? 3 : 2));
+            // (a piece planted into a uniform non-ASCII run cuts characters: only the malformed properties take that)
+            if (where == 2 && (base.size() < 24 || (uniform_non_ascii && wellformed))) where = 0;
+            Str<T> s;
+            const char *what;
+            size_t at = 0;
+            if (where == 2) {                       // the input of the run again, same address, same ends, another middle
+                s = base;
+                n = base.size();
+                lead = base_lead;
+                const size_t keep = n >= 48 ? 16 : 8, room = n - 2 * keep;
+                const Piece<T> p = feature<T>(r, e, wellformed, asciibg);
+                const size_t len = std::min(p.u.size(), room);
+                if (wellformed && len < p.u.size()) { at = keep; s[at] = static_cast<T>(s[at] == 'q' ? 'r' : 'q'); }
+                else { at = keep + r.below(room - len + 1); s.replace(at, len, p.u.substr(0, len)); }
+                what = "same_address_and_ends_as_the_run_other_middle";
+            } else {
+                if (!repeated || r.chance(1, 2)) { n = 16 + r.below(49); lead = lead_of(); }
+                const T *addr = place(n, lead);
+                s = ascii_text<T>(r, n, r.chance(1, 3));
+                Piece<T> p = feature<T>(r, e, wellformed, asciibg);
+                if (where == 0) {                   // only in the last 1..7 units
+                    Str<T> tailp = p.u;
+                    const size_t t = std::max<size_t>(1 + r.below(7), p.u.size());
+                    for (int more = 0; more < 3; ++more) {
+                        const Piece<T> p2 = feature<T>(r, e, wellformed, asciibg);
+                        if (tailp.size() + p2.u.size() <= t) tailp = r.chance(1, 2) ? tailp + p2.u : p2.u + tailp;
+                    }
+                    at = n - tailp.size();
+                    s.replace(at, tailp.size(), tailp);
+                    what = "only_in_the_last_1..7_units";
+                } else {                            // at / behind / across the first 8-byte address boundary after the start
+                    const size_t b = (8 - reinterpret_cast<uintptr_t>(addr) % 8) / sizeof(T);
+                    const size_t back = r.chance(1, 2) ? r.below(std::min(p.u.size(), b + 1)) : 0;
+                    at = back ? b - back : b + r.below(7);
+                    if (at + p.u.size() > n) at = n - p.u.size();
+                    s.replace(at, p.u.size(), p.u);
+                    what = "1..7_units_behind_or_across_the_first_8_byte_address_boundary";
+                }
+            }
+            if (wellformed) must_be_scalars(decode(e, s), "soak");
+            const T *addr = place(n, lead);
+            const size_t lo = at > 4 ? at - 4 : 0;
+            g_note = sfmt(" [soak: input %llu of the case, directly after %zu %s; %zu units at %p, not plain ASCII %s: units[%zu..]=%s]", static_cast<unsigned long long>(inputs + 1), run,
+                          !repeated ? "ASCII inputs" : "repetitions of one input", n, static_cast<const void *>(addr), what, lo, vrt::hex(s.data() + lo, std::min<size_t>(n - lo, 16), sizeof(T)).c_str());
+            record_note();
+            put(in, s);
+            feed_only(e, in, sel);
+            ++inputs; ++interesting;
+            vrt::count(sfmt("soak.after_a_run.%s", what));
+            vrt::distinct(vrt::fnv1a(s.data(), s.size() * sizeof(T), 78 + static_cast<uint64_t>(e)));
+            if (r.chance(1, 2)) { feed(e, in, true); vrt::count("soak.inputs_through_the_whole_route_table"); }
+            g_note.clear();
+            record_note();
+        }
+        for (size_t c = 0; c < core.size(); ++c) core_calls[c] += sel.hits[c];
+        ++segments;
+    }
+    const uint64_t calls = vrt::st().evaluations - evals_before;
+    vrt::count("soak.cases");
+    vrt::count("soak.inputs", inputs);
+    vrt::count("soak.runs", segments);
+    vrt::count("soak.inputs_directly_after_a_run", interesting);
+    vrt::count("soak.conversions", calls);
+    vrt::count(sfmt("soak.source.%s", big::ENC_NAME[e]));
+    if (least() >= 70001) vrt::count("soak.cases_with_more_than_70000_consecutive_calls_of_each_core_route");
+    if (vrt::want_sample("soak", 4)) {
+        std::string rs;
+        for (size_t c = 0; c < core.size(); ++c) rs += sfmt("%s%s x %llu", c ? ", " : "", core[c].first.c_str(), static_cast<unsigned long long>(core_calls[c]));
+        vrt::sample("soak", sfmt("%s source: %llu consecutive inputs (%llu conversions) in one case, %llu runs of 64..300 plain inputs each followed directly by 1..3 awkward ones; calls per core route: %s",
+                                 big::ENC_NAME[e], static_cast<unsigned long long>(inputs), static_cast<unsigned long long>(calls), static_cast<unsigned long long>(segments), rs.c_str()), 4);
+    }
+}
+
+static void soak_phase(bool wellformed)
+{
+    const bool valgrind = vrt::opt().scale < 1.0;
+    const uint64_t ncases = vrt::thorough() && !valgrind ? 64 : 16;
+    vrt::require("soak.cases", ncases);
+    vrt::require("soak.runs", valgrind ? 16 : 1000);
+    vrt::require("soak.after_a_run.only_in_the_last_1..7_units", valgrind ? 5 : 500);
+    vrt::require("soak.after_a_run.1..7_units_behind_or_across_the_first_8_byte_address_boundary", valgrind ? 5 : 500);
+    vrt::require("soak.after_a_run.same_address_and_ends_as_the_run_other_middle", valgrind ? 1 : 100);
+    if (!valgrind) vrt::require("soak.cases_with_more_than_70000_consecutive_calls_of_each_core_route", ncases);
+    vrt::note("soak: each case feeds tens of thousands of consecutive inputs of 16..64 units to 5-6 routes of one source encoding (all modes; three more routes join per run), so that each of them is called more than "
+              "70000 times in one process: runs of 64..300 plain inputs, then inputs whose non-ASCII / ill-formed units sit in the last 1..7 units, behind the first 8-byte address boundary, or in the middle of a repeated input");
+    vrt::phase("soak", ncases, [&, wellformed](uint64_t i, Rng &r) {
+        const Enc e = static_cast<Enc>(i % 4);
+        const unsigned flavour = static_cast<unsigned>(i / 4);
+        switch (e) {
+        case E16: soak_case<char16_t>(i, r, wellformed, e, flavour); break;
+        case E32: soak_case<char32_t>(i, r, wellformed, e, flavour); break;
+        default: soak_case<char>(i, r, wellformed, e, flavour); break;
+        }
+    });
+}
+
+// ---------------------------------------------------------------- alignment
+template <typename T>
+static void alignment_case(Rng &r, bool wellformed, Enc e, size_t n, size_t lead)
+{
+    Guard guard;
+    begin_case();
+    Input in{enc_code(e), {}, {}, {}};
+    const Bg<T> asciibg = big::background<T>(r, e, 1);
+    size_t ninputs = 0;
+    // offsets: 0..16 from the start, then -3..+8 from the first 8-byte address boundary behind the start
+    for (int o = 0; o < 17 + 12; ++o) {
+        for (int which = 0; which < 2; ++which) {
+            Block<T> blk(n, lead);                  // fresh: the end of the data is the end of the block
+            std::unique_ptr<Block<wchar_t>> wblk;
+            Pin<T> &pn = pin<T>();
+            pn.n = n; pn.raw = blk.p; pn.rawz = nullptr; pn.objects = false;
+            if (e == E32) { wblk.reset(new Block<wchar_t>(n, lead)); Pin<wchar_t> &pw = pin<wchar_t>(); pw.n = n; pw.raw = wblk->p; pw.rawz = nullptr; pw.objects = false; }
+            const long b = static_cast<long>((8 - reinterpret_cast<uintptr_t>(blk.p) % 8) / sizeof(T));
+            const long at = o < 17 ? o : b + (o - 17) - 3;
+            const Piece<T> p = which == 0 || wellformed || e == EL ? big::valid_piece(r, e, asciibg) : big::ill_piece(r, r.chance(1, 2), static_cast<const T *>(nullptr));
+            if (at < 0 || static_cast<size_t>(at) + p.u.size() > n) continue;
+            Str<T> s = ascii_text<T>(r, n, (o + which) % 3 == 0);
+            s.replace(static_cast<size_t>(at), p.u.size(), p.u);
+            if (wellformed) must_be_scalars(decode(e, s), "alignment");
+            g_note = sfmt(" [alignment: %zu units at %p (address mod 8 = %u), the only unit(s) that are not plain ASCII at offset %ld = first 8-byte address boundary %+ld]", n, static_cast<const void *>(blk.p),
+                          static_cast<unsigned>(reinterpret_cast<uintptr_t>(blk.p) % 8), at, at - b);
+            record_note();
+            put(in, s);
+            feed(e, in, (o + which) % 8 == 0);
+            ++ninputs;
+            vrt::distinct(vrt::fnv1a(s.data(), s.size() * sizeof(T), 79 + static_cast<uint64_t>(e)));
+            if (at < b && static_cast<long>(at + p.u.size()) > b) vrt::count("alignment.piece_across_the_first_8_byte_address_boundary");
+            else if (at >= b && at < b + 8) vrt::count("alignment.piece_0..7_units_behind_the_first_8_byte_address_boundary");
+        }
+    }
+    vrt::count("alignment.cases");
+    vrt::count("alignment.inputs", ninputs);
+    vrt::count(sfmt("alignment.start_address_mod_16.%zu", lead));
+    if (vrt::want_sample("alignment") && lead % 8 && n >= 32) vrt::sample("alignment", g_note.substr(2, g_note.size() - 3));
+}
+
+static void alignment_phase(bool wellformed)
+{
+    static const size_t NL[] = {8, 16, 17, 31, 32, 33, 40, 64, 65};
+    const size_t NN = sizeof(NL) / sizeof(NL[0]);
+    vrt::require("alignment.cases", vrt::opt().scale < 1.0 ? 20 : 500);
+    vrt::require("alignment.piece_across_the_first_8_byte_address_boundary", vrt::opt().scale < 1.0 ? 20 : 500);
+    vrt::require("alignment.piece_0..7_units_behind_the_first_8_byte_address_boundary", vrt::opt().scale < 1.0 ? 50 : 2000);
+    vrt::phase("alignment", vrt::tier_count(4 * 16 * NN, 4 * 16 * NN * 8), [&, wellformed, NN](uint64_t i, Rng &r) {
+        const Enc e = static_cast<Enc>(i % 4);
+        const size_t idx = i / 4, n = NL[(idx / 16) % NN];
+        size_t lead = idx % 16;
+        switch (e) {
+        case E16: alignment_case<char16_t>(r, wellformed, e, n, lead & ~size_t(1)); break;
+        case E32: alignment_case<char32_t>(r, wellformed, e, n, lead & ~size_t(3)); break;
+        default: alignment_case<char>(r, wellformed, e, n, lead); break;
+        }
+    });
+}
+
+} // namespace pinned
+
 // Inputs whose UTF-8 *result* is just above 256 MiB while the input itself is below 256 Mi units (the documented size
 // contract is about the input).  One conversion per case (about 1 s and 0.5 GB each), checked by size, ends and terminator.
 static void huge_result_phase()
@@ -1406,7 +2207,7 @@ static void huge_result_phase()
         vrt::cur_rewind();
         vrt::cur_printf("%s producing %zu bytes\n", g_route, target);
         Input none{8, {}, {}, {}};
-        g_in = &none;
+        set_input(none);
         try {
             ST::char_buffer out;
             size_t units = 0;
@@ -1449,6 +2250,9 @@ static void c02_body()
     vrt::count(sfmt("configuration.default=%s", mname(EXPECT_DEFAULT == ST::assume_valid ? 0 : EXPECT_DEFAULT == ST::substitute_invalid ? 1 : 2)));
     malformed_phases(false);
     scale_phase(false, 500);
+    pinned::same_storage_phase(false, 6);
+    pinned::alignment_phase(false);
+    pinned::soak_phase(false);
 }
 
 static void c03_body()
@@ -1463,6 +2267,9 @@ static void c03_body()
     vrt::require("inputs.long", 3);
     malformed_phases(true);
     scale_phase(false, 1000);
+    pinned::same_storage_phase(false, 10);
+    pinned::alignment_phase(false);
+    pinned::soak_phase(false);
     huge_result_phase();
 }
 
